@@ -79,7 +79,14 @@ func (x *ids) encode(val interface{}) V {
 		}
 		return V{"t": "list", "v": out}
 	case reflect.String:
-		return V{"t": "str", "s": codePoints(v.String())}
+		out := V{"t": "str", "s": codePoints(v.String())}
+		// a defined string type that prints differently (NameType "" prints as "Normal"): operators compare what is printed
+		if _, plain := val.(string); !plain {
+			if printed := fmt.Sprintf("%v", val); printed != v.String() {
+				out["p"] = codePoints(printed)
+			}
+		}
+		return out
 	case reflect.Bool:
 		return V{"t": "bool", "b": v.Bool()}
 	case reflect.Int, reflect.Int8, reflect.Int16, reflect.Int32, reflect.Int64:
